@@ -12,7 +12,8 @@ META = {
     "rule": "generated modules (real files): each case is a lambda passed to Select/Where/SelectMany whose free names resolve to closure cells "
     "(1-2 levels of enclosing functions), module globals, class constants (A.K, A.B.K, A.B.C.K), module attributes (math.pi, attributes "
     "and class constants of a generated helper module), mixed in one body, at lambda depth 0-2; the same names also used as parameters "
-    "of the operator lambda or of nested lambdas (must stay untouched) and as comprehension targets; values int/float/bool/hostile "
+    "of the operator lambda or of nested lambdas (must stay untouched; also re-bound by a nested lambda and then used bare again; also "
+    "attribute names python's own ast nodes have) and as comprehension targets; module globals named like the closure variables;  values int/float/bool/hostile "
     "str/bytes (transportable) and None/list/tuple/dict/set/object (must raise ValueError); monitor at the operator boundary snapshots "
     "behaviour(callable) at entry (python's own resolution at call time, symbolic probe) and requires behaviour(recorded lambda compiled "
     "in an EMPTY environment) to equal it after return and after every step of a history that rebinds / deletes each captured name "
